@@ -572,6 +572,23 @@ def make_breaker(env: Env, spec: dict) -> SpyBreaker:
     if spec.get("class_thresholds"):
         kw["class_thresholds"] = {ErrorClass[k]: v for k, v in spec["class_thresholds"].items()}
     real = CircuitBreaker(**kw)
+    pre = spec.get("pre")
+    if pre in ("open", "half_open_ready", "probe_taken"):
+        # open the circuit through its public API, then (optionally) wait out the recovery timeout
+        trip = sorted(spec.get("trip_on") or ["TRANSIENT"])[0] if spec.get("trip_on") != [] else None
+        if spec.get("class_thresholds"):
+            trip = sorted(spec["class_thresholds"])[0]
+        if trip is None:
+            raise HarnessError("cannot pre-open a breaker that trips on nothing")
+        for _ in range(kw["failure_threshold"]):
+            real.record_failure(ErrorClass[trip])
+        if real.state.value != "open":
+            raise HarnessError("breaker prelude failed to open the circuit")
+        if pre in ("half_open_ready", "probe_taken"):
+            env.clock.t += kw["recovery_timeout_s"]
+        if pre == "probe_taken":
+            if not real.allow().allowed:
+                raise HarnessError("breaker prelude: probe not admitted")
     return SpyBreaker(env, real)
 
 
@@ -695,13 +712,45 @@ def drive(coro) -> Any:
     raise HarnessError(f"unexpected suspension: {y!r}")
 
 
+def drive_steps(env: "Env", coro, inject: tuple | None):
+    """E3: step a coroutine; at suspension number inject[0] throw inject[1] into it (or close it)."""
+    k = 0
+    y = coro.send(None)
+    while True:
+        tag = getattr(y, "tag", repr(y))
+        env.trace.append(("suspend", k, tag))
+        env.suspensions = k + 1
+        if inject is not None and inject[0] == k:
+            env.trace.append(("inject", k, inject[1]))
+            if inject[1] == "close":
+                coro.close()
+                raise _Closed()
+            y = coro.throw(make_fault(inject[1]))
+        else:
+            y = coro.send(None)
+        k += 1
+
+
+class _Closed(Exception):
+    """The driver closed the coroutine (GeneratorExit delivered and honoured)."""
+
+
 @dataclass
 class CallResult:
     kind: str  # "return" | "raise"
     obj: Any
 
 
-def run_case(case: dict, entry: str, *, faults: dict | None = None, env: Env | None = None) -> Env:
+def run_case(
+    case: dict,
+    entry: str,
+    *,
+    faults: dict | None = None,
+    env: Env | None = None,
+    suspend: bool = False,
+    inject: tuple | None = None,
+    keep_clock: bool = False,
+) -> Env:
     """Run every call of the case through `entry`; returns the Env (trace in env.trace).
 
     The trace contains ("call_begin", j) ... ("call_end", j, kind, obj) per call.
@@ -712,6 +761,8 @@ def run_case(case: dict, entry: str, *, faults: dict | None = None, env: Env | N
     placement = case.get("placement") or {}
     calls = case.get("calls") or [case.get("call") or {"script": case.get("script", [])}]
     env = env or Env(case)
+    env.suspend = suspend
+    env.suspensions = 0
     if faults:
         env.faults = dict(faults)
     env.call = calls[0]
@@ -737,13 +788,21 @@ def run_case(case: dict, entry: str, *, faults: dict | None = None, env: Env | N
             env.trace.append(("call_begin", j, env.now()))
             try:
                 r = runner()
+                if suspend and hasattr(r, "send"):
+                    try:
+                        drive_steps(env, r, inject if j == len(calls) - 1 else None)
+                    except StopIteration as si:
+                        r = si.value
                 env.trace.append(("call_end", j, "return", r, env.now()))
+            except _Closed:
+                env.trace.append(("call_end", j, "closed", None, env.now()))
             except BaseException as x:  # noqa: BLE001 - the exception is the observation
                 if isinstance(x, HarnessError):
                     raise
                 env.trace.append(("call_end", j, "raise", x, env.now()))
     finally:
-        bootstrap.set_clock(None)
+        if not keep_clock:
+            bootstrap.set_clock(None)
     return env
 
 
@@ -907,6 +966,8 @@ def split_calls(trace: list) -> list[list]:
 def describe_final(env_objs: dict, end_ev: tuple) -> dict:
     """Normalise how a call ended into a comparable description."""
     _, j, kind, obj, t = end_ev
+    if kind == "closed":
+        return {"via": "closed"}
 
     def idx_of(o):
         for i, v in env_objs.items():
